@@ -61,7 +61,7 @@ def build_dlis(rng):
             order += [t] * ty['n']
         rng.shuffle(order)
         recs += [dict(kind='E', type=0, enc=False), dict(kind='E', type=1, enc=False), dict(kind='E', type=3, enc=False), dict(kind='E', type=4, enc=False)]
-        payloads += [GL.file_header(seq=lf + 1), GL.origin_full(), GL.channel_eflr(chans_all),
+        payloads += [GL.file_header(seq=lf + 1), GL.origin_full(), GL.channel_eflr(rng.sample(chans_all, len(chans_all)) if rng.random() < 0.6 else chans_all),
                      GL.frame_eflr([dict(name=ty['name'], channels=ty['channels']) for ty in types])]
         counters = [0] * ntypes
         for t in order:
@@ -93,7 +93,11 @@ def build_lis(rng, ctx):
     npass = rng.choice([1, 1, 2])
     lrs, passes, metas = [], [], []
     for k in range(npass):
-        L = c06.build_lrs(rng, ctx, cons=None)
+        # the X axis may be recorded in a unit other than the one the LAS well section is written in (.1IN -> FEET, CM -> M):
+        # rows stay in the recorded unit, STRT / STOP / STEP are in the "optical" unit
+        xunits, wellmult, dx_menu = rng.choice([(b'FEET', 1, (1, 5, 60, 250)), (b'FEET', 1, (1, 5, 60, 250)), (b'.1IN', 120, (60, 120, 600)),
+                                                (b'CM  ', 100, (25, 50, 100)), (b'M   ', 1, (1, 5))])
+        L = c06.build_lrs(rng, ctx, cons=None, xunits=xunits, dx_menu=dx_menu)
         lrs += L['lrs']
         n = sum(L['pattern'])
         if L['indirect']:
@@ -102,7 +106,7 @@ def build_lis(rng, ctx):
         else:
             names = [c['mnem'].decode() for c in L['chans']]
             cells = [[list(L['cells'][i][c]) for c in range(L['nch'])] for i in range(n)]
-        passes.append(dict(key='_%d.las' % k, names=names, n=n, Q=1, xq=[int(x) for x in L['xs']], kinds=['f'] * len(names), f32=[False] * len(names),
+        passes.append(dict(key='_%d.las' % k, names=names, n=n, Q=1, wellmult=wellmult, xq=[int(x) for x in L['xs']], kinds=['f'] * len(names), f32=[False] * len(names),
                            cells=cells, indirect=L['indirect'], pattern=L['pattern'], x0=L['x0'], dx=L['dx']))
         metas.append(dict(indirect=L['indirect'], up=L['up'], dx=L['dx'], pattern=L['pattern'], rcs=[c['rc'] for c in L['chans']],
                           samples=[c['nvals'] for c in L['chans']]))
@@ -130,7 +134,7 @@ def build_bit(rng):
         stop = start + max(1, n - 1) * spacing * (1 if down else -1)
         words = [[[c13.id_word(pi, bi, c, j) for j in range(1, f + 1)] for c in range(1, nch + 1)] for bi, f in enumerate(blocks, 1)]
         names = ['C%02d ' % c for c in range(nch)]
-        rp.append(dict(names=names, start=start, stop=stop, spacing=spacing, blocks=words))
+        rp.append(dict(names=names, start=start, stop=stop, spacing=spacing, blocks=words, unused=rng.choice([b'    ', b'    ', b'\x00\x00\x00\x00', b'\xff\xff\xff\xff', b'\x80\x01\xfe\x7f', b'OLD '])))
         sgn = 1 if stop > start else -1
         xs = [start + sgn * i * spacing for i in range(n)]
         flat = []      # flat[c][i] = word
@@ -222,6 +226,7 @@ def project(P, out, dec, method):
         # LIS headings are MNEM.UNIT tokens, the others plain names
         bad.append('~A heading %r differs from the curve section %r' % (head, out['curves']))
     Q = P['Q']
+    WQ = Q * P.get('wellmult', 1)            # well-section numbers are in the optical unit: brought back to the unit of the rows
     rows = []
     for r, cells in enumerate(out['rows']):
         if len(cells) != len(cols):
@@ -232,11 +237,11 @@ def project(P, out, dec, method):
         src = [i for i in range(P['n']) if P['xq'][i] == k]
         rows.append(src[0] if len(src) == 1 and cols and cols[0] == 1 else -1)
     w = out['well']
-    strt = scaled(w['STRT'][1], Q) if 'STRT' in w else NOX
-    stop = scaled(w['STOP'][1], Q) if 'STOP' in w else NOX
+    strt = scaled(w['STRT'][1], WQ) if 'STRT' in w else NOX
+    stop = scaled(w['STOP'][1], WQ) if 'STOP' in w else NOX
     steptxt = w['STEP'][1] if 'STEP' in w else (w['STRP'][1] if 'STRP' in w else None)
     # a step computed in single precision (float32 X channel) is printed as the shortest float32 representation
-    steplo, stephi = scaled_range(steptxt, Q * max(1, len(rows) - 1), rel=2.0 ** -22 if P['f32'][0] else 0) if steptxt is not None else (NOX, NOX)
+    steplo, stephi = scaled_range(steptxt, WQ * max(1, len(rows) - 1), rel=2.0 ** -22 if P['f32'][0] else 0) if steptxt is not None else (NOX, NOX)
     return dict(status='ok', rows=rows, cols=cols, strt=strt, stop=stop, steplo=steplo, stephi=stephi), bad
 
 
@@ -452,6 +457,8 @@ def run(ctx):
                 method = rng.choice(['first', 'mean', 'median', 'min', 'max']) if fmt != 'BIT' else 'first'
                 width = rng.choice([10, 16, 24])
                 ffmt = rng.choice(['.1f', '.3f', '.6f'] + (['.0f'] if fmt == 'LIS' else []))
+                if any(p_.get('wellmult', 1) > 1 for p_ in passes) and ffmt in ('.0f', '.1f'):
+                    ffmt = rng.choice(['.3f', '.6f'])         # the well section is printed in a coarser unit than the rows: enough decimals to compare
                 dec = int(ffmt[1:-1])
                 outdir = os.path.join(wd, 'o_%d_%s_%d' % (fi, fmt, ri))
                 path_out = os.path.join(outdir, 'f.las')
